@@ -1,0 +1,5 @@
+//go:build !verif
+
+package main
+
+func verifPoint(name string) {}
